@@ -7,7 +7,7 @@ from vf.ref import cea608 as E
 ID = 'C06'
 RULE = ('pop-on streams of 1-6 captions (drop / non-drop timecode, single / doubled codes, EDM inline before '
         'EOC, on its own line 0..900 frames later, or absent; inter-line gaps 0-8, 10, 40, 100, 900 frames; '
-        'frame fields up to :29 with long lines carrying past it; offsets 0, 1, 2, 3600 s, streams that begin '
+        'frame fields up to :29 with long lines carrying past it; offsets 0, 1, 2, 3600, 0.5, 2.5, 7.25 s, streams that begin '
         'before the offset so that instants are floored at zero) read with '
         'SCCReader.read(offset=...). A sequential reference model in Fraction computes every start / end; '
         '1 us tolerance. Non-trivial: >= 2 captions, a non-zero offset or an inline EDM.')
@@ -22,7 +22,7 @@ REQUIRE = {'streams_drop': 50, 'streams_nondrop': 50, 'streams_with_offset': 50,
            'gaps_exactly_five_frames': 3, 'gaps_open': 20, 'last_caption_four_seconds': 50,
            'flash_cue_streams': 10, 'times_compared': 500, 'captions_split_same_times': 10,
            'streams_beginning_before_the_offset': 20, 'reads_with_lang_option': 50,
-           'reads_by_a_reader_object_used_before': 100, 'streams_with_a_load_that_loads_nothing': 100}
+           'reads_by_a_reader_object_used_before': 100, 'streams_with_a_load_that_loads_nothing': 100, 'streams_with_a_fractional_offset': 100}
 CW = Fraction(1001000, 30)        # one code word at 29.97 fps, in microseconds
 
 
@@ -38,11 +38,11 @@ def gen(rng):
         prog['captions'].insert(k, {'rows': [], 'edm': rng.choice(['inline', 'inline', 'none', 'separate']),
                                     'edm_gap': rng.choice([0, 1, 5, 30]), 'enm': True,
                                     'gap': rng.choice([0, 0, 1, 2, 4, 5, 6, 10, 40])})
-    offset = rng.choice([0, 0, 0, 1, 2, 3600])
-    start_frame = offset * 30 + rng.choice([0, 1, 15, 28, 29, 30, 59, 1799, 1800, 107999, 108000, 2589410])
+    offset = rng.choice([0, 0, 0, 1, 2, 3600, 0.5, 2.5, 7.25])      # fractions that are exact in binary
+    start_frame = int(offset * 30) + rng.choice([0, 1, 15, 28, 29, 30, 59, 1799, 1800, 107999, 108000, 2589410])
     if offset and rng.random() < 0.3:
         # the stream begins before the offset: the first instants are floored at zero
-        start_frame = rng.choice([0, 1, 15, 29, 30, 45, offset * 30 - 20, offset * 30 - 1])
+        start_frame = rng.choice([0, 1, 15, 29, 30, 45, max(0, int(offset * 30) - 20), max(0, int(offset * 30) - 1)])
     case = {'prog': prog, 'offset': offset, 'start_frame': start_frame,
             'min_gap': rng.choice([0, 0, 1, 2, 3, 4, 5, 6, 8, 30, 200]),
             'lang': rng.choice([None, None, None, 'fr', 'en-US', 'x-y'])}
@@ -147,6 +147,8 @@ def check(case, ctx):
         ctx.count('streams_with_a_load_that_loads_nothing')
     if case['offset']:
         ctx.count('streams_with_offset')
+        if case['offset'] != int(case['offset']):
+            ctx.count('streams_with_a_fractional_offset')
         if case['start_frame'] < case['offset'] * 30:
             ctx.count('streams_beginning_before_the_offset')
     for g in gaps:
